@@ -185,7 +185,14 @@ fn replay_shapes(path: &str) {
     for a in &api {
         let set = ShapeSet::new(a["set"].as_array().unwrap().iter().map(|s| sh(s.as_str().unwrap())));
         let s = sh(a["shape"].as_str().unwrap());
-        let got = (set.contains(&s), set.check(&s).is_ok(), set.is_empty());
+        let got = match catch(std::panic::AssertUnwindSafe(|| (set.contains(&s), set.check(&s).map_err(|e| e.to_string()).is_ok(), set.is_empty(), set.to_string().len()))) {
+            Ok(g) => (g.0, g.1, g.2),
+            Err(p) => {
+                nprop += 1;
+                prop.push(json!({"case": a, "why": [format!("ShapeSet{} vs {}: contains / check / is_empty / Display panicked: {}", a["set"], a["shape"], p)], "key": format!("shapeset-panic:{}:{}", a["set"], a["shape"])}));
+                continue;
+            }
+        };
         let want = (a["contains"].as_bool().unwrap(), a["contains"].as_bool().unwrap(), a["empty"].as_bool().unwrap());
         if got != want {
             nprop += 1;
@@ -306,8 +313,9 @@ fn deepest(attrs: &[syn::Attribute], sp: vh::input::Range) -> (Vec<u64>, bool) {
     best
 }
 
-fn main() {
-    if std::env::var("VH_DEBUG").is_err() { std::panic::set_hook(Box::new(|_| {})); }
+fn main() { vh::util::run_main(real_main) }
+
+fn real_main() {
     let args: Vec<String> = std::env::args().collect();
     if args.len() >= 6 && args[1] == "record" {
         record(&args[2], args[3].parse().unwrap(), args[4].parse().unwrap(), &args[5]);
